@@ -7,12 +7,17 @@ package c04
 
 import (
 	"fmt"
+	"os"
+	"runtime"
 	"runtime/debug"
 	"runtime/metrics"
 	"strings"
+	"syscall"
 	"time"
 
 	"verif/engine"
+
+	"github.com/jcmturner/gokrb5/v8/zzverif/vpbkdf2"
 )
 
 type entry struct {
@@ -23,6 +28,97 @@ type entry struct {
 	costly bool // a flow through client or service (hundreds of microseconds): fewer substitution values, no 2-byte sweep
 	small  int  // all byte strings up to this length are run (default 2; cheap entries 3 in the thorough tier)
 	budget int  // allocation allowance in bytes on top of 1 MiB + 4096 per input byte (flows)
+
+	base    uint64 // bytes allocated by a valid seed (measured once per worker process, after a warm-up run)
+	hasBase bool
+}
+
+// baseline runs every seed twice (warm-up, then measured) and keeps the largest allocation of a valid input.
+func (e *entry) baseline() uint64 {
+	if e.hasBase {
+		return e.base
+	}
+	e.hasBase = true
+	for _, s := range e.seeds {
+		for pass := 0; pass < 2; pass++ {
+			a0 := allocated()
+			func() {
+				defer func() { recover() }()
+				e.run(s)
+			}()
+			if d := allocated() - a0; pass == 1 && d > e.base {
+				e.base = d
+			}
+		}
+	}
+	return e.base
+}
+
+// profileTotals snapshots allocated bytes per allocation stack (memory profile at rate 1).
+func profileTotals() map[[32]uintptr]int64 {
+	runtime.GC()
+	runtime.GC()
+	n, _ := runtime.MemProfile(nil, true)
+	recs := make([]runtime.MemProfileRecord, n+64)
+	n, ok := runtime.MemProfile(recs, true)
+	out := map[[32]uintptr]int64{}
+	if !ok {
+		return out
+	}
+	for _, r := range recs[:n] {
+		out[r.Stack0] += r.AllocBytes
+	}
+	return out
+}
+
+// topAllocSite names the innermost non-runtime, non-reflect function of the stack that allocated most since before.
+func topAllocSite(before map[[32]uintptr]int64) string {
+	after := profileTotals()
+	var best [32]uintptr
+	var bestN int64
+	for k, v := range after {
+		if d := v - before[k]; d > bestN {
+			best, bestN = k, d
+		}
+	}
+	if bestN == 0 {
+		return "unknown"
+	}
+	n := 0
+	for n < len(best) && best[n] != 0 {
+		n++
+	}
+	frames := runtime.CallersFrames(best[:n])
+	for {
+		f, more := frames.Next()
+		fn := f.Function
+		if fn != "" && !strings.HasPrefix(fn, "runtime.") && !strings.HasPrefix(fn, "reflect.") {
+			fn = strings.TrimPrefix(fn, "github.com/jcmturner/gokrb5/v8/")
+			return strings.TrimPrefix(fn, "github.com/jcmturner/")
+		}
+		if !more {
+			break
+		}
+	}
+	return "unknown"
+}
+
+func cpuSeconds() float64 {
+	var ru syscall.Rusage
+	syscall.Getrusage(syscall.RUSAGE_SELF, &ru)
+	return float64(ru.Utime.Sec+ru.Stime.Sec) + float64(ru.Utime.Usec+ru.Stime.Usec)/1e6
+}
+
+// settle waits (briefly) until goroutines started by a flow have ended, so that their allocations and any
+// failure of theirs are charged to the input that started them.
+func settle(baseline int) {
+	for i := 0; i < 2000 && runtime.NumGoroutine() > baseline; i++ {
+		if i < 100 {
+			runtime.Gosched()
+		} else {
+			time.Sleep(50 * time.Microsecond)
+		}
+	}
 }
 
 var registry []*entry
@@ -127,10 +223,12 @@ func panicSite(stack string) string {
 	return "unknown"
 }
 
-func runOne(e *entry, in []byte, r engine.Reporter, what func() interface{}) {
-	engine.Inflight(e.name, in)
+func runOne(e *entry, sub int, in []byte, r engine.Reporter, what func() interface{}) {
+	engine.InflightAt(e.name, sub, in)
+	base := e.baseline()
+	g0 := runtime.NumGoroutine()
 	a0 := allocated()
-	t0 := time.Now()
+	c0 := cpuSeconds()
 	var pval interface{}
 	var stack string
 	func() {
@@ -141,7 +239,10 @@ func runOne(e *entry, in []byte, r engine.Reporter, what func() interface{}) {
 		}()
 		e.run(in)
 	}()
-	dt := time.Since(t0)
+	if e.costly {
+		settle(g0)
+	}
+	dc := cpuSeconds() - c0
 	da := allocated() - a0
 	rec := func() interface{} {
 		return map[string]interface{}{"entry": e.name, "input_hex": fmt.Sprintf("%x", in), "mutation": what()}
@@ -153,40 +254,71 @@ func runOne(e *entry, in []byte, r engine.Reporter, what func() interface{}) {
 		r.Violate("inputs", "panic:"+e.name+":"+panicSite(stack), map[string]interface{}{"panic": fmt.Sprint(pval), "stack": stack}, rec())
 		return
 	}
-	allow := uint64(1<<20 + 4096*len(in) + e.budget)
-	for retry := 0; retry < 2 && da > allow; retry++ {
-		// one-off initialisation (lazily built tables, reflection caches) or a background goroutine may have been
-		// charged to this call: only an allocation that repeats counts
-		a1 := allocated()
+	allow := uint64(1<<20+4096*len(in)+e.budget) + 8*base
+	site := "unknown"
+	if da > allow {
+		// The cheap counter is flushed in bursts (per-P statistics), so a burst may have been charged to this
+		// call: measure again, exactly (ReadMemStats flushes all caches), and only that measurement counts.
+		var m0, m1 runtime.MemStats
+		old := runtime.MemProfileRate
+		runtime.MemProfileRate = 1
+		before := profileTotals()
+		runtime.ReadMemStats(&m0)
 		func() {
 			defer func() { recover() }()
 			e.run(in)
 		}()
-		if d := allocated() - a1; d < da {
-			da = d
+		if e.costly {
+			settle(g0)
+		}
+		runtime.ReadMemStats(&m1)
+		runtime.MemProfileRate = old
+		da = m1.TotalAlloc - m0.TotalAlloc
+		if da > allow {
+			site = topAllocSite(before)
 		}
 	}
-	if da > allow {
-		r.Violate("inputs", "allocation:"+e.name, map[string]interface{}{"allocated_bytes": da, "input_bytes": len(in), "allowance": allow}, rec())
+	if da > allow && getenv("VERIF_C04_DEBUG") != "" {
+		buf := make([]byte, 1<<16)
+		n := runtime.Stack(buf, true)
+		os.WriteFile(fmt.Sprintf("/tmp/c04debug.%d.%s", os.Getpid(), strings.ReplaceAll(e.name, "/", "_")), []byte(fmt.Sprintf("ALLOC-DEBUG %s %d bytes input %x\n%s\n", e.name, da, in, buf[:n])), 0o644)
 	}
-	if dt > 3*time.Second {
-		r.Violate("inputs", "slow:"+e.name, map[string]interface{}{"seconds": dt.Seconds(), "input_bytes": len(in)}, rec())
+	if da > allow {
+		r.Violate("inputs", "allocation:"+e.name+":"+site, map[string]interface{}{"allocated_bytes": da, "input_bytes": len(in), "allowance": allow, "valid_seed_allocates": base}, rec())
+	}
+	if dc > 20 {
+		r.Violate("inputs", "cpu-time:"+e.name, map[string]interface{}{"process_cpu_seconds": dc, "input_bytes": len(in)}, rec())
 	}
 }
 
-func init() {
-	engine.RegisterWorker("c04", engine.WorkerFunc{
-		N: func(args []string) int { return len(batches(args[0] == "thorough")) },
+func workerFor(flows bool) engine.WorkerFunc {
+	sel := func(thorough bool) []batch {
+		withFlows = flows
+		var out []batch
+		for _, b := range batches(thorough) {
+			if b.e.costly == flows {
+				out = append(out, b)
+			}
+		}
+		return out
+	}
+	return engine.WorkerFunc{
+		N: func(args []string) int { return len(sel(args[0] == "thorough")) },
 		Run: func(args []string, idx int, r engine.Reporter) {
 			thorough := args[0] == "thorough"
-			b := batches(thorough)[idx]
+			vpbkdf2.Cap = 1 << 17
+			b := sel(thorough)[idx]
 			if len(args) > 1 && args[1] != "" && !strings.HasPrefix(b.e.name, args[1]) {
 				return
 			}
 			last := time.Now()
 			n := 0
-			for i := b.lo; i < b.hi; i++ {
-				if i%64 == 0 && time.Since(last) > 2*time.Second {
+			start := b.lo
+			if rs := engine.ResumeSub(idx); rs > start {
+				start = rs
+			}
+			for i := start; i < b.hi; i++ {
+				if time.Since(last) > 2*time.Second {
 					last = time.Now()
 					r.Heartbeat()
 				}
@@ -205,7 +337,7 @@ func init() {
 						return map[string]interface{}{"family": b.fam.name, "seed": b.seed, "index": fi}
 					}
 				}
-				runOne(b.e, in, r, what)
+				runOne(b.e, i, in, r, what)
 				n++
 			}
 			fam := "short"
@@ -215,25 +347,45 @@ func init() {
 			r.Add("evaluations", int64(n))
 			r.Add("inputs:"+b.e.name, int64(n))
 			r.Add("family:"+fam, int64(n))
+			r.Add("pbkdf2_iteration_counts_abstracted", vpbkdf2.Abstracted)
+			vpbkdf2.Abstracted = 0
 		},
-	})
+	}
+}
+
+func init() {
+	engine.RegisterWorker("c04", workerFor(false))
+	engine.RegisterWorker("c04flow", workerFor(true))
 }
 
 // Run is the check's entry point.
 func Run(c *engine.Ctx) {
 	c.Assume = append(c.Assume,
 		"inputs are the valid seeds (MIT reference encodings and captured samples shipped as test data, messages minted by the reference models) and everything one deviation away from them in the listed families, plus all byte strings of length <= 2; values several deviations away from a valid message and longer than 3 bytes are outside the bound",
-		"allocation is measured as heap bytes allocated during the call (runtime/metrics) against 1 MiB + 4096 bytes per input byte; a call longer than 3 s counts as a hang; fatal errors and stalls are caught by running in worker subprocesses under RLIMIT_AS with the in-flight input recorded")
+		"allocation is measured as heap bytes allocated during the call (runtime/metrics, repeated before it counts) against 1 MiB + 4096 bytes per input byte + 8 x what a valid seed of the same entry point allocates; more than 20 s of process CPU time for one input, or a worker silent for 60 s, counts as a hang; fatal errors and stalls are caught by running in worker subprocesses under RLIMIT_AS (4 GiB of address space) with the in-flight input recorded and the case resumed after it",
+		"PBKDF2 derivations asked to run more than 131072 iterations are abstracted (counted, dummy key returned): their cost is linear in a 32-bit count chosen by the peer, they terminate, and the property does not bound CPU time; decoders and flows are run in separate worker processes so that goroutines started by a flow cannot be charged to a decoder")
 	tier := "quick"
 	if c.Thorough() {
 		tier = "thorough"
 	}
 	bs := batches(c.Thorough())
-	done := c.RunGuarded(engine.GuardSpec{Worker: "c04", Args: []string{tier, envOnly()}, MemKB: 3 << 20, Stall: 40 * time.Second,
-		Describe: func(idx int) interface{} {
-			b := bs[idx]
-			return map[string]interface{}{"entry": b.e.name, "seed": b.seed, "small": b.small, "from": b.lo, "to": b.hi}
-		}})
+	var done int64
+	for _, wk := range []struct {
+		name  string
+		flows bool
+	}{{"c04", false}, {"c04flow", true}} {
+		var mine []batch
+		for _, b := range bs {
+			if b.e.costly == wk.flows {
+				mine = append(mine, b)
+			}
+		}
+		done += c.RunGuarded(engine.GuardSpec{Worker: wk.name, Args: []string{tier, envOnly()}, MemKB: 4 << 20, Stall: 60 * time.Second, MaxDeathsPerKey: 3,
+			Describe: func(idx int) interface{} {
+				b := mine[idx]
+				return map[string]interface{}{"entry": b.e.name, "seed": b.seed, "small": b.small, "from": b.lo, "to": b.hi}
+			}})
+	}
 	per := map[string]interface{}{}
 	for _, e := range registry {
 		per[e.name] = map[string]interface{}{"kind": e.kind, "seeds": len(e.seeds), "inputs": c.Counter("inputs:" + e.name)}
